@@ -99,7 +99,9 @@ func propC08(c *ctx) error {
 			}
 		}()
 		res.S3Checked++
+		crumb(what, in)
 		f()
+		crumbAt.Store(0)
 	}
 	mutate := func(s string) string {
 		b := []byte(s)
